@@ -229,7 +229,6 @@ fn main() {
             if what < 9 {
                 // ---------------- squash into an ancestor (usually the parent)
                 op_name = "squash";
-                what_code = 0;
                 let anc = ancestors_of(src);
                 let dst = if anc.is_empty() || rng.chance(5, 6) && parents[src][0] != 0 {
                     parents[src][0]
@@ -252,6 +251,8 @@ fn main() {
                     parent_tree: parent_tree.clone(),
                 };
                 let abandon = !keep_emptied && sel.is_full_selection();
+                // a selection squashed out of a conflicted source is outside the statement
+                what_code = if !sel.is_full_selection() && !source.tree_ids().is_resolved() { 3 } else { 0 };
                 let skip = !abandon && sel.is_empty_selection();
                 let res = jjv::catch(|| {
                     let squashed = squash_commits(mut_repo, &[sel], &destination, keep_emptied)
@@ -653,7 +654,8 @@ fn main() {
             );
             let conflicted = commits.iter().any(|c| !c.tree_ids().is_resolved());
             let shape = format!(
-                "{op_name}{} desc={}{}",
+                "{op_name}{}{} desc={}{}",
+                if what_code == 3 { " (selection of a conflicted source)" } else { "" },
                 if in_scope { "" } else { " (ancestor dest)" },
                 descendants_of(src).len().min(2),
                 if conflicted { " conflicted-input" } else { "" }
